@@ -7,6 +7,7 @@ pub mod c04;
 pub mod c05;
 pub mod c06;
 pub mod c07;
+pub mod c08;
 pub mod c10;
 pub mod c11;
 pub mod c12;
@@ -29,6 +30,7 @@ pub fn get(id: &str) -> Option<Box<dyn Check>> {
         "C05" => Some(Box::new(c05::C05)),
         "C06" => Some(Box::new(c06::C06)),
         "C07" => Some(Box::new(c07::C07)),
+        "C08" => Some(Box::new(c08::C08)),
         "C10" => Some(Box::new(c10::C10)),
         "C11" => Some(Box::new(c11::C11)),
         "C12" => Some(Box::new(c12::C12)),
@@ -42,7 +44,7 @@ pub fn get(id: &str) -> Option<Box<dyn Check>> {
 }
 
 pub fn all_ids() -> Vec<&'static str> {
-    vec!["C04", "C05", "C06", "C07", "C10", "C11", "C12", "C13", "C14", "C15", "C16", "C20"]
+    vec!["C04", "C05", "C06", "C07", "C08", "C10", "C11", "C12", "C13", "C14", "C15", "C16", "C20"]
 }
 
 /// does `msg` mention `parts` in this order (each after the previous one)?
